@@ -1261,6 +1261,10 @@ def gen_bisect(rng):
         a[-1] = a[-1] - 1.0
     if kind == 2:  # the first midpoint is the exact root
         a[0], b[0] = roots[0] - 1.0, roots[0] + 1.0
+    if rng.integers(0, 4) == 0:
+        # round 5: function values of magnitude 2^-600: a product f(a) f(c) underflows to 0 while sign(f(a)) sign(f(c)) does not
+        # (the code and the model compare signs; theorem sameSign_iff identifies the two only in a field) - exact power-of-two scaling
+        coef = [[v * 2.0 ** -600 for v in c] for c in coef]
     xtol = float(rng.choice([1e-7, 1e-3, 0.25, 1e-12]))
     ftol = float(rng.choice([1e-7, 1e-3, 0.5, 1e30]))
     maxiter = int(rng.choice([0, 1, 2, 5, 30, 60]))
@@ -1307,6 +1311,17 @@ def oracle_bisect(case):
         lo, hi = min(case["a"][i], case["b"][i]), max(case["a"][i], case["b"][i])
         if not (lo <= x[i] <= hi):
             return {"element": i, "x": float(x[i]), "bracket": [lo, hi]}
+    if case["full_output"]:
+        # theorem C14_bisect_width: with a strict sign change initially the bracket width after k bodies is (b0 - a0) / 2^k, or the
+        # bracket has collapsed onto an exact zero
+        k = im["iter"] + 1
+        for i in range(case["n"]):
+            fa0, fb0 = _np_poly(case["coef"], i, case["a"][i]), _np_poly(case["coef"], i, case["b"][i])
+            if case["a"][i] < case["b"][i] and np.sign(fa0) * np.sign(fb0) < 0:
+                w = float(im["b"][i] - im["a"][i])
+                w0 = (case["b"][i] - case["a"][i]) / 2.0 ** k
+                if not (w == 0.0 or abs(w - w0) <= 1e-9 * (abs(w0) + 1e-300) + 1e-15 * (abs(case["a"][i]) + abs(case["b"][i]))):
+                    return {"element": i, "bodies": k, "bracket_width": w, "expected_(b0-a0)/2^k": w0, "f(a0)": fa0, "f(b0)": fb0}
     if case["full_output"] and case["range_check"] and im["iter"] + 1 < case["maxiter"]:
         # exit by tolerance: a sign change (or exact zero) within xtol of x
         for i in range(case["n"]):
@@ -1330,6 +1345,7 @@ def run_bisect(ctx, model, case):
     except ModelErr as e:
         mo = {"err": e.kind}
     ctx.count(f"bisect:maxiter={case['maxiter']}")
+    ctx.count("bisect:values=" + ("tiny(2^-600)" if max(abs(v) for c in case["coef"] for v in c) < 1e-100 else "O(1)"))
     if "err" in im or "err" in mo:
         ctx.count(f"bisect:err:{im.get('err')}")
         ctx.case({"kind": "bisect", "err": im.get("err")}, None)
@@ -1516,8 +1532,8 @@ def run_golden(ctx, model, case):
 # (which the generated obligation pins to the source)
 
 
-def gen_defaults(rng):
-    which = str(rng.choice(["cg", "lstsq", "cg_solver", "bisect", "golden"]))
+def gen_defaults(rng, which=None):
+    which = which or str(rng.choice(["cg", "lstsq", "cg_solver", "bisect", "golden"]))
     if which in ("cg", "lstsq", "cg_solver"):
         n = int(rng.integers(2, 7))
         cplx = bool(rng.integers(0, 2))
@@ -1705,9 +1721,78 @@ def findings(ctx, model):
                           "" if r is None else f"golden(f, 0, 1, c=0.875) for f = (x - 0.8)^2 returns {r.get('x'):.6g}, minimiser {r.get('minimiser'):.6g}")
 
 
+class _Collect:
+    """stand-in for the run context inside the targeted panel: the first disagreement is kept as the failing input"""
+
+    def __init__(self, ctx):
+        self.ctx, self.hit = ctx, None
+
+    def count(self, *a, **k):
+        pass
+
+    def case(self, *a, **k):
+        pass
+
+    def is_known(self, x):
+        return self.ctx.is_known(x)
+
+    def disagree(self, op, case, impl, model, oracle=None, known_id=None):
+        if known_id and self.ctx.is_known(known_id):
+            return
+        if self.hit is None:
+            r = oracle(case) if oracle else None
+            self.hit = {"case": case, "failing": r if r else {"op": op, "implementation": impl, "documented_behaviour_(model_with_its_tables)": model}}
+
+
+def _targeted(ctx, model):
+    """a generated obligation no longer checks: aim the search at the functions whose table rows differ between source and model"""
+    import linsolve_translate
+
+    rows = linsolve_translate.diff_rows(model.call("tables"))
+    ctx.extra["changed_table_rows"] = [list(r) for r in rows]
+    col = _Collect(ctx)
+    for kind, name in rows:
+        if kind == "defaults" and name in ("cg", "lstsq", "bisect", "golden", "cg_solver"):
+            for _ in range(40):
+                run_defaults(col, model, gen_defaults(ctx.rng, name))
+                ctx.count(f"search:targeted:defaults:{name}")
+                if col.hit:
+                    return col.hit
+        elif (kind == "defaults" and name == "MatrixATADSolver.__init__") or kind == "woodbury":
+            for _ in range(80):
+                case = gen_atad(ctx.rng)
+                ctx.count("search:targeted:atad")
+                r = oracle_atad(case)
+                if r is not None:
+                    return {"case": case, "failing": r}
+                run_atad(col, model, case)
+                if col.hit:
+                    return col.hit
+        elif (kind == "kwdicts" and name == "LinearSubproblemSolver") or (kind == "defaults" and name == "LinearSubproblemSolver.__init__"):
+            import c10
+
+            c10._setup()
+            for i in range(12):
+                want = c10.STRATA["kwhist"]
+                case = c10._gen_where(c10.gen_kwhist, ctx.rng, want[i % len(want)])
+                ctx.count("search:targeted:kwhist")
+                r = c10.oracle_kwhist(case)
+                if r is not None:
+                    return {"case": case, "failing": r}
+                c10.run_kwhist(col, model, case)
+                if col.hit:
+                    return col.hit
+    return None
+
+
 def search(ctx, model, why):
-    """failing-input search on the implementation alone: the property oracles on fresh random cases"""
+    """failing-input search on the implementation alone: the property oracles on fresh random cases; after a broken generated
+    obligation (`why`) first a panel aimed at the functions whose table rows changed"""
     _setup()
+    if why is not None:
+        hit = _targeted(ctx, model)
+        if hit:
+            return hit
     for kind, orc in ORACLES.items():
         q, t = BUDGET[kind]
         for _ in range(max(10, ctx.n(q, t) // 4)):
